@@ -4,6 +4,8 @@
 (* complete answer of the link layer (radio calls + application callbacks) of one harness operation. *)
 EXTENDS LinkLayer, Json, IOUtils, TLC
 
+CONSTANT Phy2M      \* the radio of the variant supports the 2 MBit PHY (otherwise LL_PHY_UPDATE_IND is an unknown PDU)
+
 Tr == ndJsonDeserialize(IOEnv.TRACE)
 
 VARIABLE l
@@ -33,7 +35,7 @@ Entry(pdu) ==
                            !.lat = U16(pdu, 9), !.to = U16(pdu, 11), !.inst = U16(pdu, 13)]
         ELSE IF llid = 3 /\ len = 8 /\ pdu[3] = 1
         THEN [Blank EXCEPT !.k = "chm", !.map = MapOf(SubSeq(pdu, 4, 8)), !.inst = U16(pdu, 9)]
-        ELSE IF llid = 3 /\ len = 5 /\ pdu[3] = 24
+        ELSE IF Phy2M /\ llid = 3 /\ len = 5 /\ pdu[3] = 24
         THEN [Blank EXCEPT !.k = "phy", !.prx = pdu[4], !.ptx = pdu[5], !.inst = U16(pdu, 6)]
         ELSE IF llid = 3 /\ len = 9 /\ pdu[3] = 8
         THEN [Blank EXCEPT !.k = "feat"]
@@ -58,21 +60,24 @@ CfgsOf(ev) == [i \in 1..Len(ev.cfgs) |-> { ev.cfgs[i][j] : j \in 1..Len(ev.cfgs[
 Silent == {"AdvTimeout", "Notify", "Nop", "Disconnect", "PhyReq", "AdvPdu"}
 
 Explain(ev) ==
-    \/ /\ ev.e = "Reset" /\ ev.own_sca = OwnSca
-       /\ phase' = "adv" /\ conn' = NoConn /\ sched' = NoSched /\ rxq' = <<>> /\ phy' = <<1, 1>>
+    \/ /\ ev.e = "Reset" /\ ev.own_sca = OwnSca /\ ev.phy2m = Phy2M
+       /\ phase' = "adv" /\ conn' = NoConn /\ sched' = NoSched /\ rxq' = <<>> /\ phy' = <<1, 1>> /\ rphy' = <<1, 1>>
        /\ cfgs' = CfgsOf(ev) /\ cfg' = CfgsOf(ev)[1]
     \/ ev.e \in Silent   /\ UNCHANGED vars
     \/ ev.e = "ConnReq"  /\ ConnReq(ConnParams(ev), Out(ev))
     \/ ev.e = "Timeout"  /\ Timeout(ev.now, Out(ev))
     \/ ev.e = "EndEvent" /\ EndEvent(ev.dt, FlagsOf(ev), ev.pend0, RxOf(ev), Out(ev))
-    \/ ev.e = "Cancel"   /\ Cancel(Out(ev))
+    \/ ev.e = "Cancel"   /\ IF phase = "adv" /\ Out(ev).k = "none" THEN UNCHANGED vars ELSE Cancel(Out(ev))
     \/ ev.e = "FF"       /\ ev.rem = 0 /\ FastForward(ev.ivals, Out(ev))
     \/ ev.e = "LatCfg"   /\ SwitchConfig(ev.i + 1)
 
 
 \* --- diagnosis of a rejected event (labels the finding; evaluated on the state before the event) ---------------
 \* which guard of SchedGuards rejects the scheduled event o (S = connection record the answer is judged against)
-SchedDiag(S, o, must, curphy) ==
+\* the event lies before a channel map instant but is scheduled on the channel the NEW map would give
+LaterMap(S, m, o) == S.proc.kind = "chm" /\ m < S.proc.mI /\ o.ch = CSA1(S.proc.map, S.par.hop, m)
+
+SchedDiag(S, o, must, curphy, radiophy) ==
     IF Cand(S, o) = {} THEN <<"sched", "window_matches_no_event">>
     ELSE LET m == CHOOSE x \in Cand(S, o) : TRUE
              k == m - S.last
@@ -80,12 +85,15 @@ SchedDiag(S, o, must, curphy) ==
              THEN <<"sched", IF WinAt(S, m) = NoWin THEN "window" ELSE "transmit_window", "k", k>>
              ELSE IF "C23" \in Check /\ k > S.par.lat + 1 THEN <<"sched", "skips_more_than_latency", "k", k, "lat", S.par.lat>>
              ELSE IF "C23" \in Check /\ must /\ k # 1 THEN <<"sched", "listen_condition_ignored", "k", k>>
-             ELSE IF "C23" \in Check /\ ~ChannelOK(S, m, o) THEN <<"sched", "channel", "k", k>>
+             ELSE IF "C23" \in Check /\ ~ChannelOK(S, m, o)
+                  THEN <<"sched", IF LaterMap(S, m, o) THEN "channel_uses_map_of_later_instant" ELSE "channel", "k", k>>
              ELSE IF "C21" \in Check /\ S.proc.kind # "none" /\ m > S.proc.mI THEN <<"sched", "skips_instant", S.proc.kind>>
              ELSE IF "C21" \in Check /\ S.had /\ ~(TimingOK(S, m, o) /\ o.ci = IntAt(S, m) * U /\ ChannelOK(S, m, o))
-                  THEN <<"sched", "wrong_parameters", S.proc.kind, IF S.proc.kind = "none" THEN "after_instant" ELSE IF m < S.proc.mI THEN "before_instant" ELSE "at_instant">>
-             ELSE IF "C21" \in Check /\ ~(RadioPhy(o, curphy) = PhyAt(S, m, curphy) /\ o.phyafter = 0)
-                  THEN <<"sched", "phy", S.proc.kind, IF S.proc.kind = "phy" /\ m < S.proc.mI THEN "before_instant" ELSE "at_instant">>
+                  THEN <<"sched", IF LaterMap(S, m, o) /\ TimingOK(S, m, o) THEN "parameters_of_later_instant" ELSE "wrong_parameters", S.proc.kind,
+                         IF S.proc.kind = "none" THEN "after_instant" ELSE IF m < S.proc.mI THEN "before_instant" ELSE "at_instant">>
+             ELSE IF "C21" \in Check /\ ~(RadioPhy(o, radiophy) = PhyAt(S, m, curphy) /\ o.phyafter = 0)
+                  THEN <<"sched", IF S.proc.kind = "phy" /\ m < S.proc.mI /\ RadioPhy(o, radiophy) = <<S.proc.prx, S.proc.ptx>> THEN "phy_of_later_instant" ELSE "phy",
+                         S.proc.kind, IF S.proc.kind = "phy" /\ m < S.proc.mI THEN "before_instant" ELSE "at_instant">>
              ELSE <<"sched", "other">>
 
 DClass(d) == IF d <= -2 THEN "d<=-2" ELSE IF d = -1 THEN "d=-1" ELSE IF d = 0 THEN "d=0" ELSE IF d = 1 THEN "d=1" ELSE "d>=2"
@@ -103,7 +111,7 @@ Diag(ev) ==
          ELSE IF o.k # "sched" THEN <<"timeout", "radio_not_armed", o.k>>
          ELSE IF "C22" \in Check /\ ~(IF conn.est THEN NomT(conn, sched.evt) < ToAt(conn, sched.evt) * TU + IntAt(conn, sched.evt) * U ELSE sched.evt < 5)
               THEN <<"timeout", IF conn.est THEN "not_closed_after_supervision_timeout" ELSE "still_connecting_after_6_intervals">>
-         ELSE <<"timeout">> \o SchedDiag(TookTimeout(conn, sched.evt), o, FALSE, phy)
+         ELSE <<"timeout">> \o SchedDiag(TookTimeout(conn, sched.evt), o, FALSE, PhyAfter(conn, sched.evt, phy), rphy)
     ELSE IF ev.e = "EndEvent"
     THEN IF phase # "conn" THEN <<"event", "no_connection">>
          ELSE IF ~(ev.dt >= sched.s /\ ev.dt <= sched.e) THEN <<"event", "env_packet_outside_window">>
@@ -123,16 +131,16 @@ Diag(ev) ==
                   ELSE IF "C21" \in Check /\ o.k = "adv" /\ ~r28 THEN <<"event", "closed_other_reason">>
                   ELSE IF "C22" \in Check /\ o.k = "adv" /\ SupervisionTimeout \in ClosedReasons(o) THEN <<"event", "closed_0x08_in_received_event">>
                   ELSE IF o.k = "adv" THEN <<"event", "closed">>
-                  ELSE <<"event">> \o SchedDiag(P.S, o, MustListen(FlagsOf(ev), ev.pend0), phy)
+                  ELSE <<"event">> \o SchedDiag(P.S, o, MustListen(FlagsOf(ev), ev.pend0), PhyAfter(conn, m, phy), rphy)
     ELSE IF ev.e = "Cancel"
     THEN IF phase # "conn" THEN <<"cancel", "no_connection">>
          ELSE IF o.k = "none" THEN <<"cancel", "disarmed_but_not_armed_again">>
          ELSE IF o.k # "sched" THEN <<"cancel", "radio", o.k>>
          ELSE IF "C23" \in Check /\ Cand(conn, o) # {} /\ (CHOOSE x \in Cand(conn, o) : TRUE) > sched.evt THEN <<"cancel", "moved_later">>
-         ELSE <<"cancel">> \o SchedDiag(conn, o, FALSE, phy)
+         ELSE <<"cancel">> \o SchedDiag(conn, o, FALSE, phy, rphy)
     ELSE IF ev.e = "FF"
     THEN IF phase = "conn" /\ ev.rem = 0 /\ o.k = "sched"
-         THEN <<"ff">> \o SchedDiag([conn EXCEPT !.last = conn.ref.evt + ev.ivals, !.ref = [evt |-> conn.ref.evt + ev.ivals, t |-> 0]], o, FALSE, phy)
+         THEN <<"ff">> \o SchedDiag([conn EXCEPT !.last = conn.ref.evt + ev.ivals, !.ref = [evt |-> conn.ref.evt + ev.ivals, t |-> 0]], o, FALSE, phy, rphy)
          ELSE <<"ff", "precondition">>
     ELSE <<ev.e, "unexplained">>
 
@@ -147,7 +155,7 @@ TNext ==
     \/ /\ l <= Len(Tr)
        /\ IF ENABLED Explain(Ev)
           THEN Explain(Ev) /\ l' = l + 1
-          ELSE PrintT(<<"MISMATCH", l, Diag(Ev)>>) /\ l' = NextReset(l) /\ UNCHANGED vars
+          ELSE PrintT(<<"MISMATCH", l>>) /\ PrintT(<<"DIAG", l, Diag(Ev)>>) /\ l' = NextReset(l) /\ UNCHANGED vars
     \/ /\ l = Len(Tr) + 1
        /\ PrintT(<<"TRACE_DONE", Len(Tr)>>)
        /\ l' = l + 1 /\ UNCHANGED vars
